@@ -2,9 +2,12 @@
 Driver part for C33 (directory lock).  Ops:
 
   dl.new               fresh directory
-  dl.spawn <tid>       a contender that will call AcquireDirLock and, if it succeeds, Release
+  dl.spawn <tid>       a contender that will call AcquireDirLock and, if it succeeds, Release — twice
+  dl.spawnf <tid>      the same, on a file system whose first unlink of LOCK fails (transient error)
   dl.step <tid>        run <tid> up to its next yield point (one system call)
                        → <ok|multi>:<opened|locked|held|failed|rel1|rel2|done> | ok:finished
+                       after `done` the contender calls Release a second time:
+                       → noop (the handle was cleared) | rerel1, rerel2, redone (the sequence runs again)
   dl.stat              → exists | absent   (the LOCK file)
 -/
 import Driver.Lib
@@ -18,6 +21,7 @@ structure DSt where
   c : DLCfg := DLCfg.good
   s : St := initSt
   tids : List Nat := []
+  retired : List Nat := []      -- contenders whose second Release has returned
 
 def setCfg (d : DSt) (kv : String) : Option DSt :=
   match kv.splitOn "=" with
@@ -30,6 +34,7 @@ def setCfg (d : DSt) (kv : String) : Option DSt :=
       | "unlock-close" => some { d with c := { d.c with releaseOrder := .unlockClose } }
       | _ => none
     | "dirlock.acquireRechecks" => do let b ← boolOfString? v; pure { d with c := { d.c with acquireRechecks := b } }
+    | "dirlock.releaseClearsOnError" => do let b ← boolOfString? v; pure { d with c := { d.c with releaseClearsOnError := b } }
     | "dirlock.acquireShape" | "dirlock.dbUsesLock" => if v == "true" then some d else none
     | _ => if k.startsWith "dirlock." then none else some d
   | _ => none
@@ -42,6 +47,7 @@ def pcName : PC → String
   | .rel k => s!"rel{k + 1}"
   | .failed => "failed"
   | .done => "done"
+  | .rerel k => s!"rerel{k + 1}"
 
 /-- specification side: how many contenders hold the directory -/
 def holders (d : DSt) : Nat :=
@@ -51,7 +57,14 @@ def holders (d : DSt) : Nat :=
 
 def step (d : DSt) (toks : List String) : DSt × String :=
   match toks with
-  | ["dl.new"] => ({ d with s := initSt, tids := [] }, "ok\t*")
+  | ["dl.new"] => ({ d with s := initSt, tids := [], retired := [] }, "ok\t*")
+  | ["dl.spawnf", t] =>
+    match natOf? t with
+    | some tid =>
+      match DirLock.step d.c d.s (.spawnF tid) with
+      | some s' => ({ d with s := s', tids := d.tids ++ [tid] }, "ok\t*")
+      | none => (d, "bad-op")
+    | none => (d, "bad-op")
   | ["dl.spawn", t] =>
     match natOf? t with
     | some tid =>
@@ -62,12 +75,26 @@ def step (d : DSt) (toks : List String) : DSt × String :=
   | ["dl.step", t] =>
     match natOf? t with
     | some tid =>
+      if d.retired.contains tid then (d, "ok:finished\tok:*") else
+      let before := (d.s.thr tid).map (·.pc)
+      let noHandle := match d.s.thr tid with
+        | some th => th.pc == PC.done && !th.handle
+        | none => false
       match DirLock.step d.c d.s (.run tid) with
       | some s' =>
         let d' := { d with s := s' }
-        let nm := match s'.thr tid with
-          | some th => pcName th.pc
-          | none => "?"
+        -- the second Release: a no-op if the handle was cleared, else the whole sequence again
+        let (d', nm) :=
+          if noHandle then ({ d' with retired := tid :: d'.retired }, "noop")
+          else match s'.thr tid with
+            | some th =>
+              let wasRerel : Bool := match before with
+                | some (PC.rerel _) => true
+                | _ => false
+              if th.pc == PC.done && wasRerel then
+                ({ d' with retired := tid :: d'.retired }, "redone")
+              else (d', pcName th.pc)
+            | none => (d', "?")
         (d', (if holders d' ≥ 2 then "multi" else "ok") ++ ":" ++ nm ++ "\tok:*")
       | none => (d, "ok:finished\tok:*")
     | none => (d, "bad-op")
